@@ -152,52 +152,3 @@ fn tlv_walk_matches_spec_12() {
     // n/3 + 1 items at most (C03): after 5 steps a 12-byte section is exhausted
     assert!(done || off >= n);
 }
-
-/// v1 port grammar on the real crate (C01, C12): `PROXY TCP4 1.2.3.4 5.6.7.8 <p> <q>\r\n` with p of 1..=2 and q of
-/// 1..=5 symbolic 7-bit bytes other than SP / CR, through the byte entry point: accepted exactly when both are
-/// plain decimal without sign or leading zero and at most 65535, with those values; otherwise the error names
-/// the first offending port
-#[kani::proof]
-#[kani::unwind(48)]
-fn v1_ports_match_spec() {
-    use ppp::v1::{Addresses, BinaryParseError, Header as V1Header, ParseError as V1Error};
-    let prefix = b"PROXY TCP4 1.2.3.4 5.6.7.8 ";
-    let mut buf = [0u8; 27 + 2 + 1 + 5 + 2];
-    let mut n = 0;
-    while n < prefix.len() { buf[n] = prefix[n]; n += 1; }
-    let pl: usize = kani::any();
-    let ql: usize = kani::any();
-    kani::assume(pl >= 1 && pl <= 2 && ql >= 1 && ql <= 5);
-    let p: [u8; 2] = kani::any();
-    let q: [u8; 5] = kani::any();
-    let mut i = 0;
-    while i < 2 { if i < pl { kani::assume(p[i] < 128 && p[i] != b' ' && p[i] != b'\r'); buf[n] = p[i]; n += 1; } i += 1; }
-    buf[n] = b' '; n += 1;
-    i = 0;
-    while i < 5 { if i < ql { kani::assume(q[i] < 128 && q[i] != b' ' && q[i] != b'\r'); buf[n] = q[i]; n += 1; } i += 1; }
-    buf[n] = b'\r'; buf[n + 1] = b'\n'; n += 2;
-    // specification: port_ok
-    fn port(s: &[u8]) -> Option<u32> {
-        let mut v: u32 = 0;
-        let mut k = 0;
-        while k < 5 {
-            if k < s.len() { if !s[k].is_ascii_digit() { return None; } v = v * 10 + (s[k] - b'0') as u32; }
-            k += 1;
-        }
-        if (s.len() > 1 && s[0] == b'0') || v > 65535 { None } else { Some(v) }
-    }
-    let sp = port(&p[..pl]);
-    let dp = port(&q[..ql]);
-    match V1Header::try_from(&buf[..n]) {
-        Ok(h) => {
-            assert!(sp.is_some() && dp.is_some());
-            match h.addresses {
-                Addresses::Tcp4(a) => assert!(a.source_port as u32 == sp.unwrap() && a.destination_port as u32 == dp.unwrap()),
-                _ => assert!(false),
-            }
-        }
-        Err(BinaryParseError::Parse(V1Error::InvalidSourcePort(_))) => assert!(sp.is_none()),
-        Err(BinaryParseError::Parse(V1Error::InvalidDestinationPort(_))) => assert!(sp.is_some() && dp.is_none()),
-        Err(_) => assert!(false),
-    }
-}
